@@ -8,6 +8,12 @@ CHECKS = {
  'C01': dict(cat='exploration', technique='runtime monitoring: differential round-trip monitor, reference wowm model as oracle over event logs of the real codecs',
              text='Real read/write functions of every login and world message are driven with canonical encodings generated from an independent reading of the wowm definitions (policy variants, each-choice branch plans, seeded random values, captured vectors); an offline checker compares consumed length, re-encoded bytes (inflated payload for compressed members), header and a second decode/encode cycle. Held means: on the executions listed in the evidence.',
              note='Trusted: the reference model in ref/ (self-validated on every run against the 229 captured test vectors x flavours), the canonical leaf limits of DESIGN.md 2.1, Python zlib.', ref='3.C01'),
+ 'C03': dict(cat='fault_enumeration', technique='runtime monitoring: fault injection on network input with panic capture, counting-allocator budget monitor and watchdog; valgrind memcheck on the zlib path (thorough)',
+             text='Every public opcode-enum reader is fed random frames for every opcode and structured corruptions of canonical encodings derived from the reference field maps (truncation at every field boundary, boundary values in every count/length/size field, out-of-range enum/bool/flag/mask/string fields, lying header sizes, corrupt compressed payloads, EOF at every byte). Each decode runs in a supervised worker under catch_unwind, a counting global allocator with a fixed 1 GiB budget and a per-operation watchdog; panics, aborts, reproducible hangs and over-budget requests are violations.',
+             note='Trusted: the harness monitors (harness/mon), the 1 GiB budget as the meaning of "in proportion to the frame". Only executions actually produced are covered.', ref='3.C03'),
+ 'C04': dict(cat='fault_enumeration', technique='runtime monitoring: fault enumeration from field maps, oracle on the returned error value',
+             text='For every enum-typed leaf of the each-choice canonical vectors (top level, nested structs, arrays, conditional blocks, upcast) undeclared values are injected at full wire width (in-range, +2^8/+2^16/+2^32 aliases of a declared value, all-ones); every constant-sized message gets every shorter body and bodies longer by 1, 2, 17; every undefined opcode of a direction/version is sent. The decoder must return an error; for enums and opcodes the error value must carry the injected number.',
+             note='Trusted: reference field maps (ref/), exact constant-size computation of ref/sizes.py.', ref='3.C04'),
 }
 PENDING = 'check not built yet (work in progress; DESIGN.md section 8 gives the build order)'
 
